@@ -1,5 +1,6 @@
 from __future__ import annotations
 
+import copy
 import operator
 
 from datetime import date
@@ -402,6 +403,13 @@ class Interval(Duration, Generic[_T]):
         self, protocol: SupportsIndex
     ) -> tuple[type[Self], tuple[_T, _T, bool]]:
         return self.__class__, self._getstate(protocol)
+
+    def __deepcopy__(self, memo: dict[int, Self]) -> Self:  # type: ignore[override]
+        start, end, absolute = self._getstate()
+
+        return self.__class__(
+            copy.deepcopy(start, memo), copy.deepcopy(end, memo), absolute
+        )
 
     def __hash__(self) -> int:
         return hash((self.start, self.end, self._absolute))
